@@ -189,7 +189,7 @@ func VerifC03_KCycle() {
 		VerifC03_KBuiltins_Setup()
 		env = c03Env
 	}
-	shape := vndChoice("shape", 7)
+	shape := vndChoice("shape", 9)
 	var v *lisp.LVal
 	switch shape {
 	case 0:
@@ -207,6 +207,10 @@ func VerifC03_KCycle() {
 		v = env.LoadString("gen", "(deftype c3cell (x) x) (let ((w (vector 1))) (append! w (new c3cell w)) w)")
 	case 6: // user-typed value holding a list that holds the value's own container
 		v = env.LoadString("gen", "(deftype c3wrap (x) x) (let* ((w (vector)) (t (new c3wrap (list w 2)))) (append! w t) t)")
+	case 7: // a vector holding itself TWICE (a walk that does not stop at the first repeat unrolls it exponentially)
+		v = env.LoadString("gen", "(let ((w (vector 1))) (append! w w) (append! w w) w)")
+	case 8: // ... four times, below a list
+		v = env.LoadString("gen", "(let ((w (vector))) (append! w w) (append! w w) (append! w w) (append! w w) (list w w))")
 	case 3: // map -> list -> map
 		m := lisp.SortedMap()
 		l := lisp.QExpr([]*lisp.LVal{m})
@@ -214,10 +218,11 @@ func VerifC03_KCycle() {
 		v = m
 	}
 	env.PutGlobal(lisp.Symbol("cyc"), v)
+	vInstrBound(20000000) // ... and so must the work: bounded time with limits configured
 	vDepthBound(2500) // Go recursion must stay bounded on cyclic data (the real build would overflow its stack)
 	s := v.String()
 	vAssert(len(s) > 0, "printing a self-containing value terminates")
-	ops := []string{"(equal? cyc cyc)", "(to-string cyc)", "(json:dump-string cyc)", "(format-string \"{}\" cyc)", "(debug-print cyc)", "(length cyc)", "(reverse 'list cyc)"}
+	ops := []string{"(equal? cyc cyc)", "(to-string cyc)", "(json:dump-string cyc)", "(format-string \"{}\" cyc)", "(debug-print cyc)", "(length cyc)", "(reverse 'list cyc)", "(progn (defmacro c3mac () cyc) (length (c3mac)))", "(macroexpand '(c3mac2))"}
 	r := env.LoadString("cyc", ops[vndChoice("op", len(ops))])
 	vAssert(!lisp.IsInternalPanic(r), "self-containing data never panics the host")
 	vAssert(vGoDepth() < 3000, "Go recursion stays bounded on cyclic data")
